@@ -33,9 +33,13 @@
                    crash.cookie_attribute_without_cookie, crash.mapped_attribute_empty_dsl, crash.unknown_view_on_result_type,
                    crash.extend_collection, crash.error_response_headers_undeclared_error, crash.grpc_message_empty_dsl,
                    crash.grpc_message_attr_not_in_payload, crash.body_empty_dsl
+                 Found later (second round, reproducers in vlib/c12_seeds.py, repairs /tmp/fixes/c12b-*.patch):
+                   crash.base_cycle_tag_lookup, crash.meta_without_value, crash.api_grpc_error_response,
+                   crash.grpc_response_message_empty_dsl, crash.enum_default_uncomparable, crash.extend_cycle_through_attribute
      accept.*    kinds of dangling references the real code accepts.  Enabled -> Evaluate may accept them.
                  Found: accept.body_attribute (Body(func) attributes with an empty payload), accept.response_tag (Tag on a
-                 result attribute that does not exist).  The other kinds exist for the vacuity check of the invariant.
+                 result attribute that does not exist), accept.error_response (an API-level gRPC Response for an error nobody
+                 declares).  The other kinds exist for the vacuity check of the invariant.
      report.unnamed   rejected programs whose errors do not name an expression (not observed).
      handoff.fails    accepted programs for which generation / compilation fails (property C01's business; recorded,
                       not judged here). *)
@@ -43,11 +47,15 @@ EXTENDS Integers, Sequences, FiniteSets, TLC
 
 CONSTANTS Deviations,     \* named departures of the code from the design that are switched on
           Fns,            \* the functions the generator may call (a subset of DOMAIN FT)
-          Pools,          \* "min" / "tiny" / "small": a few tokens per argument (exhaustive runs); "full": all of them; "doc": documented uses only; "refs": documented uses plus spare names
+          Pools,          \* "min" / "tiny" / "small": a few tokens per argument (exhaustive runs); "full": all of them; "doc": documented uses only; "refs": documented uses plus spare names;
+                          \* "sec" / "rec": the tokens of the focused walks around security scopes / recursive user types
           MaxCalls, MinCalls, MaxDepth, MaxMisplaced,
           MaxTop,         \* at most this many top-level calls (the rest of the budget goes into nesting)
           MinKids,        \* a func() does not return before it made this many calls (while the budget lasts)
-          Once            \* functions the generator calls exactly once per program where documented, before anything else (the spine of a focused walk)
+          Once,           \* functions the generator calls exactly once per program where documented, before anything else (the spine of a focused walk)
+          SpineDeep       \* TRUE: the spine is built depth first - a once-only function that opens a context in which further once-only functions
+                          \* are documented goes first, and a func() does not return while once-only functions documented for its context are unused
+                          \* (so that a transport block documented for API, Service and Method lands in the Method of the spine)
 
 E(doc, opens, ns, ts, vs) == [doc |-> doc, opens |-> opens, ns |-> ns, ts |-> ts, vs |-> vs]
 
@@ -58,11 +66,11 @@ FT == [
       {"fn", "nilfn"}),
   APIKey                         |-> E({"Attr"}, "Attr",
       {"", "a", "a:X-A", "b", "zz", "zz:X-Z"},
-      {"-", "Any", "ArrArrS", "ArrFn", "ArrInt", "ArrNil", "ArrS", "ArrT1", "ArrnT1", "Boolean", "Bytes", "CollBad", "CollCollR1", "CollFn", "CollNil", "CollR1", "CollR2", "CollT1", "CollnR1", "Empty", "ErrorResult", "Float32", "Float64", "Int", "Int32", "Int64", "MapFn", "MapIntS", "MapMapKey", "MapNilV", "MapSArrS", "MapSS", "MapST1", "MapT1S", "R1", "R2", "String", "T1", "T2", "UInt", "nNoSuch", "nR1", "nT1", "nT2", "nil", "wrongInt", "wrongStruct"},
+      {"-", "Any", "ArrArrS", "ArrFn", "ArrInt", "ArrNil", "ArrS", "ArrT1", "ArrT2", "ArrnT1", "ArrnT2", "Boolean", "Bytes", "CollBad", "CollCollR1", "CollFn", "CollNil", "CollR1", "CollR2", "CollT1", "CollnR1", "Empty", "ErrorResult", "Float32", "Float64", "Int", "Int32", "Int64", "MapFn", "MapIntS", "MapMapKey", "MapNilV", "MapSArrS", "MapSS", "MapST1", "MapSnT1", "MapSnT2", "MapT1S", "R1", "R2", "String", "T1", "T2", "UInt", "nNoSuch", "nR1", "nT1", "nT2", "nil", "wrongInt", "wrongStruct"},
       {"badscheme", "desc", "descfn", "fn", "many", "nilfn", "plain"}),
   APIKeyField                    |-> E({"Attr"}, "Attr",
       {"", "a", "a:X-A", "b", "zz", "zz:X-Z"},
-      {"-", "Any", "ArrArrS", "ArrFn", "ArrInt", "ArrNil", "ArrS", "ArrT1", "ArrnT1", "Boolean", "Bytes", "CollBad", "CollCollR1", "CollFn", "CollNil", "CollR1", "CollR2", "CollT1", "CollnR1", "Empty", "ErrorResult", "Float32", "Float64", "Int", "Int32", "Int64", "MapFn", "MapIntS", "MapMapKey", "MapNilV", "MapSArrS", "MapSS", "MapST1", "MapT1S", "R1", "R2", "String", "T1", "T2", "UInt", "nNoSuch", "nR1", "nT1", "nT2", "nil", "wrongInt", "wrongStruct"},
+      {"-", "Any", "ArrArrS", "ArrFn", "ArrInt", "ArrNil", "ArrS", "ArrT1", "ArrT2", "ArrnT1", "ArrnT2", "Boolean", "Bytes", "CollBad", "CollCollR1", "CollFn", "CollNil", "CollR1", "CollR2", "CollT1", "CollnR1", "Empty", "ErrorResult", "Float32", "Float64", "Int", "Int32", "Int64", "MapFn", "MapIntS", "MapMapKey", "MapNilV", "MapSArrS", "MapSS", "MapST1", "MapSnT1", "MapSnT2", "MapT1S", "R1", "R2", "String", "T1", "T2", "UInt", "nNoSuch", "nR1", "nT1", "nT2", "nil", "wrongInt", "wrongStruct"},
       {"badtag", "desc", "descfn", "fn", "many", "nilfn", "niltag", "plain"}),
   APIKeySecurity                 |-> E({"Top"}, "Scheme",
       {"", "sc1", "sc2"},
@@ -70,15 +78,15 @@ FT == [
       {"fn", "many", "nilfn", "plain"}),
   AccessToken                    |-> E({"Attr"}, "Attr",
       {"", "a", "a:X-A", "b", "zz", "zz:X-Z"},
-      {"-", "Any", "ArrArrS", "ArrFn", "ArrInt", "ArrNil", "ArrS", "ArrT1", "ArrnT1", "Boolean", "Bytes", "CollBad", "CollCollR1", "CollFn", "CollNil", "CollR1", "CollR2", "CollT1", "CollnR1", "Empty", "ErrorResult", "Float32", "Float64", "Int", "Int32", "Int64", "MapFn", "MapIntS", "MapMapKey", "MapNilV", "MapSArrS", "MapSS", "MapST1", "MapT1S", "R1", "R2", "String", "T1", "T2", "UInt", "nNoSuch", "nR1", "nT1", "nT2", "nil", "wrongInt", "wrongStruct"},
+      {"-", "Any", "ArrArrS", "ArrFn", "ArrInt", "ArrNil", "ArrS", "ArrT1", "ArrT2", "ArrnT1", "ArrnT2", "Boolean", "Bytes", "CollBad", "CollCollR1", "CollFn", "CollNil", "CollR1", "CollR2", "CollT1", "CollnR1", "Empty", "ErrorResult", "Float32", "Float64", "Int", "Int32", "Int64", "MapFn", "MapIntS", "MapMapKey", "MapNilV", "MapSArrS", "MapSS", "MapST1", "MapSnT1", "MapSnT2", "MapT1S", "R1", "R2", "String", "T1", "T2", "UInt", "nNoSuch", "nR1", "nT1", "nT2", "nil", "wrongInt", "wrongStruct"},
       {"desc", "descfn", "fn", "many", "nilfn", "plain"}),
   AccessTokenField               |-> E({"Attr"}, "Attr",
       {"", "a", "a:X-A", "b", "zz", "zz:X-Z"},
-      {"-", "Any", "ArrArrS", "ArrFn", "ArrInt", "ArrNil", "ArrS", "ArrT1", "ArrnT1", "Boolean", "Bytes", "CollBad", "CollCollR1", "CollFn", "CollNil", "CollR1", "CollR2", "CollT1", "CollnR1", "Empty", "ErrorResult", "Float32", "Float64", "Int", "Int32", "Int64", "MapFn", "MapIntS", "MapMapKey", "MapNilV", "MapSArrS", "MapSS", "MapST1", "MapT1S", "R1", "R2", "String", "T1", "T2", "UInt", "nNoSuch", "nR1", "nT1", "nT2", "nil", "wrongInt", "wrongStruct"},
+      {"-", "Any", "ArrArrS", "ArrFn", "ArrInt", "ArrNil", "ArrS", "ArrT1", "ArrT2", "ArrnT1", "ArrnT2", "Boolean", "Bytes", "CollBad", "CollCollR1", "CollFn", "CollNil", "CollR1", "CollR2", "CollT1", "CollnR1", "Empty", "ErrorResult", "Float32", "Float64", "Int", "Int32", "Int64", "MapFn", "MapIntS", "MapMapKey", "MapNilV", "MapSArrS", "MapSS", "MapST1", "MapSnT1", "MapSnT2", "MapT1S", "R1", "R2", "String", "T1", "T2", "UInt", "nNoSuch", "nR1", "nT1", "nT2", "nil", "wrongInt", "wrongStruct"},
       {"badtag", "desc", "descfn", "fn", "many", "nilfn", "niltag", "plain"}),
   Attribute                      |-> E({"Attr", "RT", "Mapped"}, "Attr",
       {"", "a", "a:X-A", "b", "zz", "zz:X-Z"},
-      {"-", "Any", "ArrArrS", "ArrFn", "ArrInt", "ArrNil", "ArrS", "ArrT1", "ArrnT1", "Boolean", "Bytes", "CollBad", "CollCollR1", "CollFn", "CollNil", "CollR1", "CollR2", "CollT1", "CollnR1", "Empty", "ErrorResult", "Float32", "Float64", "Int", "Int32", "Int64", "MapFn", "MapIntS", "MapMapKey", "MapNilV", "MapSArrS", "MapSS", "MapST1", "MapT1S", "R1", "R2", "String", "T1", "T2", "UInt", "nNoSuch", "nR1", "nT1", "nT2", "nil", "wrongInt", "wrongStruct"},
+      {"-", "Any", "ArrArrS", "ArrFn", "ArrInt", "ArrNil", "ArrS", "ArrT1", "ArrT2", "ArrnT1", "ArrnT2", "Boolean", "Bytes", "CollBad", "CollCollR1", "CollFn", "CollNil", "CollR1", "CollR2", "CollT1", "CollnR1", "Empty", "ErrorResult", "Float32", "Float64", "Int", "Int32", "Int64", "MapFn", "MapIntS", "MapMapKey", "MapNilV", "MapSArrS", "MapSS", "MapST1", "MapSnT1", "MapSnT2", "MapT1S", "R1", "R2", "String", "T1", "T2", "UInt", "nNoSuch", "nR1", "nT1", "nT2", "nil", "wrongInt", "wrongStruct"},
       {"desc", "descfn", "fn", "many", "nilfn", "plain"}),
   Attributes                     |-> E({"RT"}, "Attr",
       {"-"},
@@ -130,7 +138,7 @@ FT == [
       {"plain"}),
   Cookie                         |-> E({"APIHTTP", "SvcHTTP", "MethHTTP", "HTTPResp", "HTTPErrResp", "Mapped"}, "Attr",
       {"", "a", "a:X-A", "b", "zz", "zz:X-Z"},
-      {"-", "Any", "ArrArrS", "ArrFn", "ArrInt", "ArrNil", "ArrS", "ArrT1", "ArrnT1", "Boolean", "Bytes", "CollBad", "CollCollR1", "CollFn", "CollNil", "CollR1", "CollR2", "CollT1", "CollnR1", "Empty", "ErrorResult", "Float32", "Float64", "Int", "Int32", "Int64", "MapFn", "MapIntS", "MapMapKey", "MapNilV", "MapSArrS", "MapSS", "MapST1", "MapT1S", "R1", "R2", "String", "T1", "T2", "UInt", "nNoSuch", "nR1", "nT1", "nT2", "nil", "wrongInt", "wrongStruct"},
+      {"-", "Any", "ArrArrS", "ArrFn", "ArrInt", "ArrNil", "ArrS", "ArrT1", "ArrT2", "ArrnT1", "ArrnT2", "Boolean", "Bytes", "CollBad", "CollCollR1", "CollFn", "CollNil", "CollR1", "CollR2", "CollT1", "CollnR1", "Empty", "ErrorResult", "Float32", "Float64", "Int", "Int32", "Int64", "MapFn", "MapIntS", "MapMapKey", "MapNilV", "MapSArrS", "MapSS", "MapST1", "MapSnT1", "MapSnT2", "MapT1S", "R1", "R2", "String", "T1", "T2", "UInt", "nNoSuch", "nR1", "nT1", "nT2", "nil", "wrongInt", "wrongStruct"},
       {"desc", "descfn", "fn", "many", "nilfn", "plain"}),
   CookieDomain                   |-> E({"HTTPResp", "HTTPErrResp"}, "",
       {"", "long", "odd", "txt"},
@@ -166,7 +174,7 @@ FT == [
       {"plain"}),
   Default                        |-> E({"Attr"}, "",
       {"-"},
-      {"arr", "arrI", "arrval", "b", "f", "i", "map", "mapval", "nil", "s", "sbad", "sn", "struct", "u", "val"},
+      {"arr", "arrI", "arrval", "b", "bytes", "f", "i", "map", "mapval", "nil", "s", "sbad", "sn", "struct", "u", "val"},
       {"plain"}),
   Deprecated                     |-> E({"MethHTTP"}, "",
       {"-"},
@@ -190,11 +198,11 @@ FT == [
       {"plain"}),
   Enum                           |-> E({"Attr"}, "",
       {"-"},
-      {"arr", "arrval", "dup", "f", "i", "map", "mapval", "mixed", "nil", "none", "s"},
+      {"arr", "arrval", "bytes", "dup", "f", "i", "map", "mapval", "mixed", "nil", "none", "s"},
       {"plain"}),
   Error                          |-> E({"API", "Service", "Method"}, "Attr",
       {"", "e1", "e2", "zz"},
-      {"-", "Any", "ArrArrS", "ArrFn", "ArrInt", "ArrNil", "ArrS", "ArrT1", "ArrnT1", "Boolean", "Bytes", "CollBad", "CollCollR1", "CollFn", "CollNil", "CollR1", "CollR2", "CollT1", "CollnR1", "Empty", "ErrorResult", "Float32", "Float64", "Int", "Int32", "Int64", "MapFn", "MapIntS", "MapMapKey", "MapNilV", "MapSArrS", "MapSS", "MapST1", "MapT1S", "R1", "R2", "String", "T1", "T2", "UInt", "nNoSuch", "nR1", "nT1", "nT2", "nil", "wrongInt", "wrongStruct"},
+      {"-", "Any", "ArrArrS", "ArrFn", "ArrInt", "ArrNil", "ArrS", "ArrT1", "ArrT2", "ArrnT1", "ArrnT2", "Boolean", "Bytes", "CollBad", "CollCollR1", "CollFn", "CollNil", "CollR1", "CollR2", "CollT1", "CollnR1", "Empty", "ErrorResult", "Float32", "Float64", "Int", "Int32", "Int64", "MapFn", "MapIntS", "MapMapKey", "MapNilV", "MapSArrS", "MapSS", "MapST1", "MapSnT1", "MapSnT2", "MapT1S", "R1", "R2", "String", "T1", "T2", "UInt", "nNoSuch", "nR1", "nT1", "nT2", "nil", "wrongInt", "wrongStruct"},
       {"desc", "descfn", "fn", "many", "nilfn", "plain"}),
   ErrorName                      |-> E({"Attr", "RT"}, "Attr",
       {"", "-", "a", "b"},
@@ -202,15 +210,15 @@ FT == [
       {"badpos", "fn", "nilfn", "plain", "pos", "posfew"}),
   Example                        |-> E({"Attr", "Mapped"}, "Example",
       {"-"},
-      {"arr", "arrI", "arrval", "b", "f", "i", "map", "mapval", "nil", "s", "sbad", "sn", "struct", "u", "val"},
+      {"arr", "arrI", "arrval", "b", "bytes", "f", "i", "map", "mapval", "nil", "s", "sbad", "sn", "struct", "u", "val"},
       {"badsummary", "few", "fn", "many", "nilfn", "plain", "summary", "summaryfn"}),
   ExclusiveMaximum               |-> E({"Attr"}, "",
       {"-"},
-      {"arr", "arrI", "arrval", "b", "f", "i", "map", "mapval", "nil", "s", "sbad", "sn", "struct", "u", "val"},
+      {"arr", "arrI", "arrval", "b", "bytes", "f", "i", "map", "mapval", "nil", "s", "sbad", "sn", "struct", "u", "val"},
       {"plain"}),
   ExclusiveMinimum               |-> E({"Attr"}, "",
       {"-"},
-      {"arr", "arrI", "arrval", "b", "f", "i", "map", "mapval", "nil", "s", "sbad", "sn", "struct", "u", "val"},
+      {"arr", "arrI", "arrval", "b", "bytes", "f", "i", "map", "mapval", "nil", "s", "sbad", "sn", "struct", "u", "val"},
       {"plain"}),
   Extend                         |-> E({"Attr", "RT"}, "",
       {"-"},
@@ -222,7 +230,7 @@ FT == [
       {"plain"}),
   Field                          |-> E({"Attr", "RT", "Mapped"}, "Attr",
       {"", "a", "a:X-A", "b", "zz", "zz:X-Z"},
-      {"-", "Any", "ArrArrS", "ArrFn", "ArrInt", "ArrNil", "ArrS", "ArrT1", "ArrnT1", "Boolean", "Bytes", "CollBad", "CollCollR1", "CollFn", "CollNil", "CollR1", "CollR2", "CollT1", "CollnR1", "Empty", "ErrorResult", "Float32", "Float64", "Int", "Int32", "Int64", "MapFn", "MapIntS", "MapMapKey", "MapNilV", "MapSArrS", "MapSS", "MapST1", "MapT1S", "R1", "R2", "String", "T1", "T2", "UInt", "nNoSuch", "nR1", "nT1", "nT2", "nil", "wrongInt", "wrongStruct"},
+      {"-", "Any", "ArrArrS", "ArrFn", "ArrInt", "ArrNil", "ArrS", "ArrT1", "ArrT2", "ArrnT1", "ArrnT2", "Boolean", "Bytes", "CollBad", "CollCollR1", "CollFn", "CollNil", "CollR1", "CollR2", "CollT1", "CollnR1", "Empty", "ErrorResult", "Float32", "Float64", "Int", "Int32", "Int64", "MapFn", "MapIntS", "MapMapKey", "MapNilV", "MapSArrS", "MapSS", "MapST1", "MapSnT1", "MapSnT2", "MapT1S", "R1", "R2", "String", "T1", "T2", "UInt", "nNoSuch", "nR1", "nT1", "nT2", "nil", "wrongInt", "wrongStruct"},
       {"badtag", "desc", "descfn", "fn", "many", "nilfn", "niltag", "plain"}),
   Files                          |-> E({"Service"}, "Files",
       {"", "/f", "/f/{*p}", "/f/{*p}/x", "/{a}", "f"},
@@ -250,7 +258,7 @@ FT == [
       {"fn", "many", "nilfn", "plain"}),
   Header                         |-> E({"APIHTTP", "SvcHTTP", "MethHTTP", "HTTPResp", "HTTPErrResp", "Mapped"}, "Attr",
       {"", "a", "a:X-A", "b", "zz", "zz:X-Z"},
-      {"-", "Any", "ArrArrS", "ArrFn", "ArrInt", "ArrNil", "ArrS", "ArrT1", "ArrnT1", "Boolean", "Bytes", "CollBad", "CollCollR1", "CollFn", "CollNil", "CollR1", "CollR2", "CollT1", "CollnR1", "Empty", "ErrorResult", "Float32", "Float64", "Int", "Int32", "Int64", "MapFn", "MapIntS", "MapMapKey", "MapNilV", "MapSArrS", "MapSS", "MapST1", "MapT1S", "R1", "R2", "String", "T1", "T2", "UInt", "nNoSuch", "nR1", "nT1", "nT2", "nil", "wrongInt", "wrongStruct"},
+      {"-", "Any", "ArrArrS", "ArrFn", "ArrInt", "ArrNil", "ArrS", "ArrT1", "ArrT2", "ArrnT1", "ArrnT2", "Boolean", "Bytes", "CollBad", "CollCollR1", "CollFn", "CollNil", "CollR1", "CollR2", "CollT1", "CollnR1", "Empty", "ErrorResult", "Float32", "Float64", "Int", "Int32", "Int64", "MapFn", "MapIntS", "MapMapKey", "MapNilV", "MapSArrS", "MapSS", "MapST1", "MapSnT1", "MapSnT2", "MapT1S", "R1", "R2", "String", "T1", "T2", "UInt", "nNoSuch", "nR1", "nT1", "nT2", "nil", "wrongInt", "wrongStruct"},
       {"desc", "descfn", "fn", "many", "nilfn", "plain"}),
   Headers                        |-> E({"APIHTTP", "SvcHTTP", "MethHTTP", "HTTPResp", "HTTPErrResp", "GRPCResp", "GRPCErrResp"}, "Mapped",
       {"-"},
@@ -286,14 +294,14 @@ FT == [
       {"plain"}),
   Maximum                        |-> E({"Attr"}, "",
       {"-"},
-      {"arr", "arrI", "arrval", "b", "f", "i", "map", "mapval", "nil", "s", "sbad", "sn", "struct", "u", "val"},
+      {"arr", "arrI", "arrval", "b", "bytes", "f", "i", "map", "mapval", "nil", "s", "sbad", "sn", "struct", "u", "val"},
       {"plain"}),
   Message                        |-> E({"MethGRPC", "GRPCResp", "GRPCErrResp"}, "Attr",
       {"-"},
       {"-"},
       {"fn", "nilfn"}),
   Meta                           |-> E({"API", "Server", "Host", "Attr", "RT", "Method", "Service", "SvcHTTP", "MethHTTP", "Files", "HTTPResp", "HTTPErrResp", "Mapped"}, "",
-      {"", "k", "openapi:example", "openapi:extension:x-api", "openapi:generate", "openapi:json:schema", "openapi:operationId", "openapi:summary", "openapi:tag:x", "openapi:typename", "protoc:include", "rpc:tag", "struct:error:name", "struct:field:external", "struct:field:name", "struct:field:proto", "struct:field:type", "struct:name:proto", "struct:pkg:path", "struct:tag:json", "swagger:example", "swagger:extension:x-api", "swagger:generate", "swagger:tag:x", "type:generate:force", "view"},
+      {"", "k", "openapi:example", "openapi:extension:x-api", "openapi:generate", "openapi:json:schema", "openapi:operationId", "openapi:summary", "openapi:tag:x", "openapi:typename", "protoc:include", "rpc:tag", "struct:error:name", "struct:field:external", "struct:field:name", "struct:field:proto", "struct:field:type", "struct:name:proto", "struct:pkg:path", "struct:tag:json", "struct:type:name", "swagger:example", "swagger:extension:x-api", "swagger:generate", "swagger:tag:x", "type:generate:force", "view"},
       {"-", "empty", "false", "int", "json", "two", "types", "v"},
       {"plain"}),
   Metadata                       |-> E({"MethGRPC"}, "Attr",
@@ -310,7 +318,7 @@ FT == [
       {"plain"}),
   Minimum                        |-> E({"Attr"}, "",
       {"-"},
-      {"arr", "arrI", "arrval", "b", "f", "i", "map", "mapval", "nil", "s", "sbad", "sn", "struct", "u", "val"},
+      {"arr", "arrI", "arrval", "b", "bytes", "f", "i", "map", "mapval", "nil", "s", "sbad", "sn", "struct", "u", "val"},
       {"plain"}),
   MultipartRequest               |-> E({"MethHTTP"}, "",
       {"-"},
@@ -354,7 +362,7 @@ FT == [
       {"plain"}),
   Param                          |-> E({"APIHTTP", "SvcHTTP", "MethHTTP", "Mapped"}, "Attr",
       {"", "a", "a:X-A", "b", "zz", "zz:X-Z"},
-      {"-", "Any", "ArrArrS", "ArrFn", "ArrInt", "ArrNil", "ArrS", "ArrT1", "ArrnT1", "Boolean", "Bytes", "CollBad", "CollCollR1", "CollFn", "CollNil", "CollR1", "CollR2", "CollT1", "CollnR1", "Empty", "ErrorResult", "Float32", "Float64", "Int", "Int32", "Int64", "MapFn", "MapIntS", "MapMapKey", "MapNilV", "MapSArrS", "MapSS", "MapST1", "MapT1S", "R1", "R2", "String", "T1", "T2", "UInt", "nNoSuch", "nR1", "nT1", "nT2", "nil", "wrongInt", "wrongStruct"},
+      {"-", "Any", "ArrArrS", "ArrFn", "ArrInt", "ArrNil", "ArrS", "ArrT1", "ArrT2", "ArrnT1", "ArrnT2", "Boolean", "Bytes", "CollBad", "CollCollR1", "CollFn", "CollNil", "CollR1", "CollR2", "CollT1", "CollnR1", "Empty", "ErrorResult", "Float32", "Float64", "Int", "Int32", "Int64", "MapFn", "MapIntS", "MapMapKey", "MapNilV", "MapSArrS", "MapSS", "MapST1", "MapSnT1", "MapSnT2", "MapT1S", "R1", "R2", "String", "T1", "T2", "UInt", "nNoSuch", "nR1", "nT1", "nT2", "nil", "wrongInt", "wrongStruct"},
       {"desc", "descfn", "fn", "many", "nilfn", "plain"}),
   Params                         |-> E({"APIHTTP", "SvcHTTP", "MethHTTP"}, "Mapped",
       {"-"},
@@ -366,11 +374,11 @@ FT == [
       {"plain"}),
   Password                       |-> E({"Attr"}, "Attr",
       {"", "a", "a:X-A", "b", "zz", "zz:X-Z"},
-      {"-", "Any", "ArrArrS", "ArrFn", "ArrInt", "ArrNil", "ArrS", "ArrT1", "ArrnT1", "Boolean", "Bytes", "CollBad", "CollCollR1", "CollFn", "CollNil", "CollR1", "CollR2", "CollT1", "CollnR1", "Empty", "ErrorResult", "Float32", "Float64", "Int", "Int32", "Int64", "MapFn", "MapIntS", "MapMapKey", "MapNilV", "MapSArrS", "MapSS", "MapST1", "MapT1S", "R1", "R2", "String", "T1", "T2", "UInt", "nNoSuch", "nR1", "nT1", "nT2", "nil", "wrongInt", "wrongStruct"},
+      {"-", "Any", "ArrArrS", "ArrFn", "ArrInt", "ArrNil", "ArrS", "ArrT1", "ArrT2", "ArrnT1", "ArrnT2", "Boolean", "Bytes", "CollBad", "CollCollR1", "CollFn", "CollNil", "CollR1", "CollR2", "CollT1", "CollnR1", "Empty", "ErrorResult", "Float32", "Float64", "Int", "Int32", "Int64", "MapFn", "MapIntS", "MapMapKey", "MapNilV", "MapSArrS", "MapSS", "MapST1", "MapSnT1", "MapSnT2", "MapT1S", "R1", "R2", "String", "T1", "T2", "UInt", "nNoSuch", "nR1", "nT1", "nT2", "nil", "wrongInt", "wrongStruct"},
       {"desc", "descfn", "fn", "many", "nilfn", "plain"}),
   PasswordField                  |-> E({"Attr"}, "Attr",
       {"", "a", "a:X-A", "b", "zz", "zz:X-Z"},
-      {"-", "Any", "ArrArrS", "ArrFn", "ArrInt", "ArrNil", "ArrS", "ArrT1", "ArrnT1", "Boolean", "Bytes", "CollBad", "CollCollR1", "CollFn", "CollNil", "CollR1", "CollR2", "CollT1", "CollnR1", "Empty", "ErrorResult", "Float32", "Float64", "Int", "Int32", "Int64", "MapFn", "MapIntS", "MapMapKey", "MapNilV", "MapSArrS", "MapSS", "MapST1", "MapT1S", "R1", "R2", "String", "T1", "T2", "UInt", "nNoSuch", "nR1", "nT1", "nT2", "nil", "wrongInt", "wrongStruct"},
+      {"-", "Any", "ArrArrS", "ArrFn", "ArrInt", "ArrNil", "ArrS", "ArrT1", "ArrT2", "ArrnT1", "ArrnT2", "Boolean", "Bytes", "CollBad", "CollCollR1", "CollFn", "CollNil", "CollR1", "CollR2", "CollT1", "CollnR1", "Empty", "ErrorResult", "Float32", "Float64", "Int", "Int32", "Int64", "MapFn", "MapIntS", "MapMapKey", "MapNilV", "MapSArrS", "MapSS", "MapST1", "MapSnT1", "MapSnT2", "MapT1S", "R1", "R2", "String", "T1", "T2", "UInt", "nNoSuch", "nR1", "nT1", "nT2", "nil", "wrongInt", "wrongStruct"},
       {"badtag", "desc", "descfn", "fn", "many", "nilfn", "niltag", "plain"}),
   PasswordFlow                   |-> E({"Scheme"}, "",
       {"", "odd", "url"},
@@ -386,7 +394,7 @@ FT == [
       {"plain"}),
   Payload                        |-> E({"Method"}, "Attr",
       {"-"},
-      {"-", "Any", "ArrArrS", "ArrFn", "ArrInt", "ArrNil", "ArrS", "ArrT1", "ArrnT1", "Boolean", "Bytes", "CollBad", "CollCollR1", "CollFn", "CollNil", "CollR1", "CollR2", "CollT1", "CollnR1", "Empty", "ErrorResult", "Float32", "Float64", "Int", "Int32", "Int64", "MapFn", "MapIntS", "MapMapKey", "MapNilV", "MapSArrS", "MapSS", "MapST1", "MapT1S", "R1", "R2", "String", "T1", "T2", "UInt", "nNoSuch", "nR1", "nT1", "nT2", "nil", "wrongInt", "wrongStruct"},
+      {"-", "Any", "ArrArrS", "ArrFn", "ArrInt", "ArrNil", "ArrS", "ArrT1", "ArrT2", "ArrnT1", "ArrnT2", "Boolean", "Bytes", "CollBad", "CollCollR1", "CollFn", "CollNil", "CollR1", "CollR2", "CollT1", "CollnR1", "Empty", "ErrorResult", "Float32", "Float64", "Int", "Int32", "Int64", "MapFn", "MapIntS", "MapMapKey", "MapNilV", "MapSArrS", "MapSS", "MapST1", "MapSnT1", "MapSnT2", "MapT1S", "R1", "R2", "String", "T1", "T2", "UInt", "nNoSuch", "nR1", "nT1", "nT2", "nil", "wrongInt", "wrongStruct"},
       {"desc", "descfn", "fn", "many", "nilfn", "plain"}),
   Produces                       |-> E({"APIHTTP"}, "",
       {"", "-", "application/json", "application/xml", "odd"},
@@ -414,7 +422,7 @@ FT == [
       {"few", "fn", "many", "nilfn", "plain"}),
   Result                         |-> E({"Method"}, "Attr",
       {"-"},
-      {"-", "Any", "ArrArrS", "ArrFn", "ArrInt", "ArrNil", "ArrS", "ArrT1", "ArrnT1", "Boolean", "Bytes", "CollBad", "CollCollR1", "CollFn", "CollNil", "CollR1", "CollR2", "CollT1", "CollnR1", "Empty", "ErrorResult", "Float32", "Float64", "Int", "Int32", "Int64", "MapFn", "MapIntS", "MapMapKey", "MapNilV", "MapSArrS", "MapSS", "MapST1", "MapT1S", "R1", "R2", "String", "T1", "T2", "UInt", "nNoSuch", "nR1", "nT1", "nT2", "nil", "wrongInt", "wrongStruct"},
+      {"-", "Any", "ArrArrS", "ArrFn", "ArrInt", "ArrNil", "ArrS", "ArrT1", "ArrT2", "ArrnT1", "ArrnT2", "Boolean", "Bytes", "CollBad", "CollCollR1", "CollFn", "CollNil", "CollR1", "CollR2", "CollT1", "CollnR1", "Empty", "ErrorResult", "Float32", "Float64", "Int", "Int32", "Int64", "MapFn", "MapIntS", "MapMapKey", "MapNilV", "MapSArrS", "MapSS", "MapST1", "MapSnT1", "MapSnT2", "MapT1S", "R1", "R2", "String", "T1", "T2", "UInt", "nNoSuch", "nR1", "nT1", "nT2", "nil", "wrongInt", "wrongStruct"},
       {"desc", "descfn", "fn", "many", "nilfn", "plain"}),
   ResultType                     |-> E({"Top"}, "RT",
       {"", "R1", "R2", "bad", "plain"},
@@ -450,11 +458,11 @@ FT == [
       {"plain"}),
   StreamingPayload               |-> E({"Method"}, "Attr",
       {"-"},
-      {"-", "Any", "ArrArrS", "ArrFn", "ArrInt", "ArrNil", "ArrS", "ArrT1", "ArrnT1", "Boolean", "Bytes", "CollBad", "CollCollR1", "CollFn", "CollNil", "CollR1", "CollR2", "CollT1", "CollnR1", "Empty", "ErrorResult", "Float32", "Float64", "Int", "Int32", "Int64", "MapFn", "MapIntS", "MapMapKey", "MapNilV", "MapSArrS", "MapSS", "MapST1", "MapT1S", "R1", "R2", "String", "T1", "T2", "UInt", "nNoSuch", "nR1", "nT1", "nT2", "nil", "wrongInt", "wrongStruct"},
+      {"-", "Any", "ArrArrS", "ArrFn", "ArrInt", "ArrNil", "ArrS", "ArrT1", "ArrT2", "ArrnT1", "ArrnT2", "Boolean", "Bytes", "CollBad", "CollCollR1", "CollFn", "CollNil", "CollR1", "CollR2", "CollT1", "CollnR1", "Empty", "ErrorResult", "Float32", "Float64", "Int", "Int32", "Int64", "MapFn", "MapIntS", "MapMapKey", "MapNilV", "MapSArrS", "MapSS", "MapST1", "MapSnT1", "MapSnT2", "MapT1S", "R1", "R2", "String", "T1", "T2", "UInt", "nNoSuch", "nR1", "nT1", "nT2", "nil", "wrongInt", "wrongStruct"},
       {"desc", "descfn", "fn", "many", "nilfn", "plain"}),
   StreamingResult                |-> E({"Method"}, "Attr",
       {"-"},
-      {"-", "Any", "ArrArrS", "ArrFn", "ArrInt", "ArrNil", "ArrS", "ArrT1", "ArrnT1", "Boolean", "Bytes", "CollBad", "CollCollR1", "CollFn", "CollNil", "CollR1", "CollR2", "CollT1", "CollnR1", "Empty", "ErrorResult", "Float32", "Float64", "Int", "Int32", "Int64", "MapFn", "MapIntS", "MapMapKey", "MapNilV", "MapSArrS", "MapSS", "MapST1", "MapT1S", "R1", "R2", "String", "T1", "T2", "UInt", "nNoSuch", "nR1", "nT1", "nT2", "nil", "wrongInt", "wrongStruct"},
+      {"-", "Any", "ArrArrS", "ArrFn", "ArrInt", "ArrNil", "ArrS", "ArrT1", "ArrT2", "ArrnT1", "ArrnT2", "Boolean", "Bytes", "CollBad", "CollCollR1", "CollFn", "CollNil", "CollR1", "CollR2", "CollT1", "CollnR1", "Empty", "ErrorResult", "Float32", "Float64", "Int", "Int32", "Int64", "MapFn", "MapIntS", "MapMapKey", "MapNilV", "MapSArrS", "MapSS", "MapST1", "MapSnT1", "MapSnT2", "MapT1S", "R1", "R2", "String", "T1", "T2", "UInt", "nNoSuch", "nR1", "nT1", "nT2", "nil", "wrongInt", "wrongStruct"},
       {"desc", "descfn", "fn", "many", "nilfn", "plain"}),
   TRACE                          |-> E({"MethHTTP"}, "",
       {"", "/", "//abs/{a}", "/x", "/x/", "/x/{*a}", "/x/{a}", "/x/{b}", "/{", "/{*w}", "/{a:A}", "/{a}/{a}", "/{zz}", "x"},
@@ -482,11 +490,11 @@ FT == [
       {"plain"}),
   Token                          |-> E({"Attr"}, "Attr",
       {"", "a", "a:X-A", "b", "zz", "zz:X-Z"},
-      {"-", "Any", "ArrArrS", "ArrFn", "ArrInt", "ArrNil", "ArrS", "ArrT1", "ArrnT1", "Boolean", "Bytes", "CollBad", "CollCollR1", "CollFn", "CollNil", "CollR1", "CollR2", "CollT1", "CollnR1", "Empty", "ErrorResult", "Float32", "Float64", "Int", "Int32", "Int64", "MapFn", "MapIntS", "MapMapKey", "MapNilV", "MapSArrS", "MapSS", "MapST1", "MapT1S", "R1", "R2", "String", "T1", "T2", "UInt", "nNoSuch", "nR1", "nT1", "nT2", "nil", "wrongInt", "wrongStruct"},
+      {"-", "Any", "ArrArrS", "ArrFn", "ArrInt", "ArrNil", "ArrS", "ArrT1", "ArrT2", "ArrnT1", "ArrnT2", "Boolean", "Bytes", "CollBad", "CollCollR1", "CollFn", "CollNil", "CollR1", "CollR2", "CollT1", "CollnR1", "Empty", "ErrorResult", "Float32", "Float64", "Int", "Int32", "Int64", "MapFn", "MapIntS", "MapMapKey", "MapNilV", "MapSArrS", "MapSS", "MapST1", "MapSnT1", "MapSnT2", "MapT1S", "R1", "R2", "String", "T1", "T2", "UInt", "nNoSuch", "nR1", "nT1", "nT2", "nil", "wrongInt", "wrongStruct"},
       {"desc", "descfn", "fn", "many", "nilfn", "plain"}),
   TokenField                     |-> E({"Attr"}, "Attr",
       {"", "a", "a:X-A", "b", "zz", "zz:X-Z"},
-      {"-", "Any", "ArrArrS", "ArrFn", "ArrInt", "ArrNil", "ArrS", "ArrT1", "ArrnT1", "Boolean", "Bytes", "CollBad", "CollCollR1", "CollFn", "CollNil", "CollR1", "CollR2", "CollT1", "CollnR1", "Empty", "ErrorResult", "Float32", "Float64", "Int", "Int32", "Int64", "MapFn", "MapIntS", "MapMapKey", "MapNilV", "MapSArrS", "MapSS", "MapST1", "MapT1S", "R1", "R2", "String", "T1", "T2", "UInt", "nNoSuch", "nR1", "nT1", "nT2", "nil", "wrongInt", "wrongStruct"},
+      {"-", "Any", "ArrArrS", "ArrFn", "ArrInt", "ArrNil", "ArrS", "ArrT1", "ArrT2", "ArrnT1", "ArrnT2", "Boolean", "Bytes", "CollBad", "CollCollR1", "CollFn", "CollNil", "CollR1", "CollR2", "CollT1", "CollnR1", "Empty", "ErrorResult", "Float32", "Float64", "Int", "Int32", "Int64", "MapFn", "MapIntS", "MapMapKey", "MapNilV", "MapSArrS", "MapSS", "MapST1", "MapSnT1", "MapSnT2", "MapT1S", "R1", "R2", "String", "T1", "T2", "UInt", "nNoSuch", "nR1", "nT1", "nT2", "nil", "wrongInt", "wrongStruct"},
       {"badtag", "desc", "descfn", "fn", "many", "nilfn", "niltag", "plain"}),
   Trailers                       |-> E({"GRPCResp", "GRPCErrResp"}, "Attr",
       {"-"},
@@ -494,7 +502,7 @@ FT == [
       {"fn", "nilfn"}),
   Type                           |-> E({"Top"}, "Attr",
       {"", "T1", "T2"},
-      {"-", "Any", "ArrArrS", "ArrFn", "ArrInt", "ArrNil", "ArrS", "ArrT1", "ArrnT1", "Boolean", "Bytes", "CollBad", "CollCollR1", "CollFn", "CollNil", "CollR1", "CollR2", "CollT1", "CollnR1", "Empty", "ErrorResult", "Float32", "Float64", "Int", "Int32", "Int64", "MapFn", "MapIntS", "MapMapKey", "MapNilV", "MapSArrS", "MapSS", "MapST1", "MapT1S", "R1", "R2", "String", "T1", "T2", "UInt", "nNoSuch", "nR1", "nT1", "nT2", "nil", "wrongInt", "wrongStruct"},
+      {"-", "Any", "ArrArrS", "ArrFn", "ArrInt", "ArrNil", "ArrS", "ArrT1", "ArrT2", "ArrnT1", "ArrnT2", "Boolean", "Bytes", "CollBad", "CollCollR1", "CollFn", "CollNil", "CollR1", "CollR2", "CollT1", "CollnR1", "Empty", "ErrorResult", "Float32", "Float64", "Int", "Int32", "Int64", "MapFn", "MapIntS", "MapMapKey", "MapNilV", "MapSArrS", "MapSS", "MapST1", "MapSnT1", "MapSnT2", "MapT1S", "R1", "R2", "String", "T1", "T2", "UInt", "nNoSuch", "nR1", "nT1", "nT2", "nil", "wrongInt", "wrongStruct"},
       {"desc", "fn", "many", "nilfn", "plain"}),
   TypeName                       |-> E({"Attr", "RT"}, "",
       {"", "R1", "Renamed", "T2", "odd"},
@@ -510,19 +518,19 @@ FT == [
       {"plain"}),
   Username                       |-> E({"Attr"}, "Attr",
       {"", "a", "a:X-A", "b", "zz", "zz:X-Z"},
-      {"-", "Any", "ArrArrS", "ArrFn", "ArrInt", "ArrNil", "ArrS", "ArrT1", "ArrnT1", "Boolean", "Bytes", "CollBad", "CollCollR1", "CollFn", "CollNil", "CollR1", "CollR2", "CollT1", "CollnR1", "Empty", "ErrorResult", "Float32", "Float64", "Int", "Int32", "Int64", "MapFn", "MapIntS", "MapMapKey", "MapNilV", "MapSArrS", "MapSS", "MapST1", "MapT1S", "R1", "R2", "String", "T1", "T2", "UInt", "nNoSuch", "nR1", "nT1", "nT2", "nil", "wrongInt", "wrongStruct"},
+      {"-", "Any", "ArrArrS", "ArrFn", "ArrInt", "ArrNil", "ArrS", "ArrT1", "ArrT2", "ArrnT1", "ArrnT2", "Boolean", "Bytes", "CollBad", "CollCollR1", "CollFn", "CollNil", "CollR1", "CollR2", "CollT1", "CollnR1", "Empty", "ErrorResult", "Float32", "Float64", "Int", "Int32", "Int64", "MapFn", "MapIntS", "MapMapKey", "MapNilV", "MapSArrS", "MapSS", "MapST1", "MapSnT1", "MapSnT2", "MapT1S", "R1", "R2", "String", "T1", "T2", "UInt", "nNoSuch", "nR1", "nT1", "nT2", "nil", "wrongInt", "wrongStruct"},
       {"desc", "descfn", "fn", "many", "nilfn", "plain"}),
   UsernameField                  |-> E({"Attr"}, "Attr",
       {"", "a", "a:X-A", "b", "zz", "zz:X-Z"},
-      {"-", "Any", "ArrArrS", "ArrFn", "ArrInt", "ArrNil", "ArrS", "ArrT1", "ArrnT1", "Boolean", "Bytes", "CollBad", "CollCollR1", "CollFn", "CollNil", "CollR1", "CollR2", "CollT1", "CollnR1", "Empty", "ErrorResult", "Float32", "Float64", "Int", "Int32", "Int64", "MapFn", "MapIntS", "MapMapKey", "MapNilV", "MapSArrS", "MapSS", "MapST1", "MapT1S", "R1", "R2", "String", "T1", "T2", "UInt", "nNoSuch", "nR1", "nT1", "nT2", "nil", "wrongInt", "wrongStruct"},
+      {"-", "Any", "ArrArrS", "ArrFn", "ArrInt", "ArrNil", "ArrS", "ArrT1", "ArrT2", "ArrnT1", "ArrnT2", "Boolean", "Bytes", "CollBad", "CollCollR1", "CollFn", "CollNil", "CollR1", "CollR2", "CollT1", "CollnR1", "Empty", "ErrorResult", "Float32", "Float64", "Int", "Int32", "Int64", "MapFn", "MapIntS", "MapMapKey", "MapNilV", "MapSArrS", "MapSS", "MapST1", "MapSnT1", "MapSnT2", "MapT1S", "R1", "R2", "String", "T1", "T2", "UInt", "nNoSuch", "nR1", "nT1", "nT2", "nil", "wrongInt", "wrongStruct"},
       {"badtag", "desc", "descfn", "fn", "many", "nilfn", "niltag", "plain"}),
   Value                          |-> E({"Example"}, "",
       {"-"},
-      {"arr", "arrI", "arrval", "b", "f", "i", "map", "mapval", "nil", "s", "sbad", "sn", "struct", "u", "val"},
+      {"arr", "arrI", "arrval", "b", "bytes", "f", "i", "map", "mapval", "nil", "s", "sbad", "sn", "struct", "u", "val"},
       {"plain"}),
   Variable                       |-> E({"Host"}, "Attr",
       {"", "v1", "zz"},
-      {"-", "Any", "ArrArrS", "ArrFn", "ArrInt", "ArrNil", "ArrS", "ArrT1", "ArrnT1", "Boolean", "Bytes", "CollBad", "CollCollR1", "CollFn", "CollNil", "CollR1", "CollR2", "CollT1", "CollnR1", "Empty", "ErrorResult", "Float32", "Float64", "Int", "Int32", "Int64", "MapFn", "MapIntS", "MapMapKey", "MapNilV", "MapSArrS", "MapSS", "MapST1", "MapT1S", "R1", "R2", "String", "T1", "T2", "UInt", "nNoSuch", "nR1", "nT1", "nT2", "nil", "wrongInt", "wrongStruct"},
+      {"-", "Any", "ArrArrS", "ArrFn", "ArrInt", "ArrNil", "ArrS", "ArrT1", "ArrT2", "ArrnT1", "ArrnT2", "Boolean", "Bytes", "CollBad", "CollCollR1", "CollFn", "CollNil", "CollR1", "CollR2", "CollT1", "CollnR1", "Empty", "ErrorResult", "Float32", "Float64", "Int", "Int32", "Int64", "MapFn", "MapIntS", "MapMapKey", "MapNilV", "MapSArrS", "MapSS", "MapST1", "MapSnT1", "MapSnT2", "MapT1S", "R1", "R2", "String", "T1", "T2", "UInt", "nNoSuch", "nR1", "nT1", "nT2", "nil", "wrongInt", "wrongStruct"},
       {"desc", "descfn", "fn", "many", "nilfn", "plain"}),
   Version                        |-> E({"API"}, "",
       {"", "long", "odd", "txt"},
@@ -565,9 +573,15 @@ OddTok == {"", "odd", "long", "nil", "wrongInt", "wrongStruct", "wrong", "many",
 SpareTok == {"zz", "zz:X-Z", "nov", "/{zz}", "/{*w}", "two", "T2", "R2", "e2", "sc2", "s2", "m2", "h2", "b", "nosuch"}
 TinyTok == {"-", "a", "zz", "s1", "m1", "e1", "sc1", "nosuch", "T1", "R1", "api1", "plain", "fn", "200", "404", "tiny", "nov", "/x/{a}", "/{zz}",
             "txt", "url", "i", "s", "v", "k", "1", "date", "det", "struct", "Renamed", "u", "srv1", "h1", "v1", "pkg", "file.txt", "/f", "/r", "301",
-            "application/json", "http://localhost:8080", "api:read", "3600", "strict", "^a+$", "email"}
+            "application/json", "http://localhost:8080", "api:read", "3600", "strict", "^a+$", "email", "struct:pkg:path", "arr"}
 MinTok == {"-", "a", "zz", "s1", "m1", "e1", "sc1", "R1", "plain", "fn", "200", "404", "/x", "tiny", "nov", "api1"}
+\* security walk: one scheme, its scopes and a scope nobody defines
+SecTok == {"-", "a", "s1", "m1", "sc1", "api:read", "api:write", "nosuch", "plain", "fn", "/x"}
+\* recursion walk: user types that reach themselves by name or by value, through an attribute, an array or a map, directly or through each other
+RecTok == {"-", "a", "b", "s1", "m1", "e1", "T1", "T2", "nT1", "nT2", "ArrT1", "ArrT2", "ArrnT1", "ArrnT2", "MapST1", "MapSnT1", "MapSnT2", "plain", "fn", "/x"}
 Pool(S) == IF Pools = "full" THEN S
+           ELSE IF Pools = "sec" THEN (LET I == S \cap SecTok IN IF I = {} THEN {CHOOSE x \in S : TRUE} ELSE I)
+           ELSE IF Pools = "rec" THEN (LET I == S \cap RecTok IN IF I = {} THEN {CHOOSE x \in S : TRUE} ELSE I)
            ELSE IF Pools = "min" THEN (LET I == S \cap MinTok IN IF I = {} THEN {CHOOSE x \in S : TRUE} ELSE I)
            ELSE IF Pools = "tiny" THEN (LET I == S \cap TinyTok IN IF I = {} THEN {CHOOSE x \in S : TRUE} ELSE I)
            ELSE IF Pools = "doc" THEN (IF S \ (OddTok \cup SpareTok) = {} THEN S ELSE S \ (OddTok \cup SpareTok))
@@ -711,12 +725,35 @@ DanglingView(ns) ==
        /\ ns[i].f = "View" /\ ns[i].v \in OpenVars /\ ns[i].p # 0 /\ WellPlaced(ns, i)
        /\ LET r == ns[i].p IN /\ ns[r].f = "ResultType" /\ ns[r].n \in {"R1", "R2"} /\ TypeKnown(ns, ns[r].n)
                              /\ ~(DeclNames(ns, i) \subseteq TypeAttrs(ns, ns[r].n))
+\* h is the single transport block f of the API, and some method has a transport block f of its own (API-level error
+\* responses are validated by the services of that transport)
+APIBlock(ns, h, f) ==
+  /\ ns[h].f = f /\ ns[h].p # 0 /\ OnlyKid(ns, h, f) /\ ns[ns[h].p].f = "API"
+  /\ \E e \in Idx(ns) : EndpointBlock(ns, e, f) /\ WellPlaced(ns, e)
 DanglingErrorResponse(ns) == \E i \in Idx(ns) :
   /\ ns[i].f = "Response" /\ ns[i].n \in {"e1", "e2", "zz"} /\ ns[i].p # 0 /\ WellPlaced(ns, i)
   /\ \/ EndpointBlock(ns, ns[i].p, "HTTP") \/ EndpointBlock(ns, ns[i].p, "GRPC") \/ ServiceBlock(ns, ns[i].p, "HTTP")
+     \/ APIBlock(ns, ns[i].p, "HTTP") \/ APIBlock(ns, ns[i].p, "GRPC")
   /\ ns[i].n \notin {ns[k].n : k \in {j \in Idx(ns) : ns[j].f = "Error"}}
 
+\* Security(scheme, func() { Scope("x") }) on a method (or on a service one of whose methods has no requirement of its own):
+\* no scheme of the program defines scope x ("defined" is generous: a Scope("x") call anywhere below a scheme function)
+ScopeNames == {"api:read", "api:write", "nosuch"}
+ScopeDefined(ns, n) == \E k \in Idx(ns) : ns[k].f = "Scope" /\ ns[k].n = n /\ \E a \in Chain(ns, k) : ns[a].f \in SchemeFns
+NoOwnRequirement(ns, m, fs) == \A k \in KidsOf(ns, m) : ns[k].f \notin fs
+ServiceMethod(ns, m) == /\ ns[m].f = "Method" /\ UniqueNamed(ns, m) /\ ns[m].p # 0
+                        /\ ns[ns[m].p].f = "Service" /\ UniqueNamed(ns, ns[m].p)
+DanglingScope(ns) == \E i \in Idx(ns) :
+  /\ ns[i].f = "Scope" /\ ns[i].n \in ScopeNames /\ ns[i].p # 0 /\ WellPlaced(ns, i)
+  /\ ns[ns[i].p].f = "Security" /\ ns[ns[i].p].p # 0
+  /\ LET o == ns[ns[i].p].p IN
+       \/ ServiceMethod(ns, o) /\ NoOwnRequirement(ns, o, {"NoSecurity"})
+       \/ /\ ns[o].f = "Service" /\ UniqueNamed(ns, o)
+          /\ \E m \in KidsOf(ns, o) : ServiceMethod(ns, m) /\ WellPlaced(ns, m) /\ NoOwnRequirement(ns, m, {"Security", "NoSecurity"})
+  /\ ~ScopeDefined(ns, ns[i].n)
+
 DanglingKinds(ns) ==
+  (IF DanglingScope(ns) THEN {"scope"} ELSE {}) \cup
   (IF DanglingRequestMapping(ns) THEN {"request_mapping"} ELSE {}) \cup
   (IF DanglingBodyAttribute(ns) THEN {"body_attribute"} ELSE {}) \cup
   (IF DanglingResponseTag(ns) THEN {"response_tag"} ELSE {}) \cup
@@ -739,6 +776,15 @@ FieldFns == {"Field", "UsernameField", "PasswordField", "APIKeyField", "AccessTo
 WrapperFns == FieldFns \cup {"Username", "Password", "APIKey", "AccessToken", "Token", "ErrorName"}
 CookieAttrFns == {"CookieMaxAge", "CookieDomain", "CookiePath", "CookieSecure", "CookieHTTPOnly", "CookieSameSite"}
 Defined(ns, tok) == TypeNodes(ns, tok) \cup RTNodes(ns, tok) # {}
+UncomparableVals == {"arr", "arrI", "arrval", "bytes", "map", "mapval", "val"}
+\* the user types reachable from user type t through Extend calls (directly in the function of Type / ResultType, or in its Attributes block)
+ExtendEdges(ns) == {e \in UserToks \X UserToks : \E i \in Idx(ns) :
+                      /\ ns[i].f = "Extend" /\ ns[i].t = e[2] /\ ns[i].p # 0
+                      /\ LET o == IF ns[ns[i].p].f = "Attributes" /\ ns[ns[i].p].p # 0 THEN ns[ns[i].p].p ELSE ns[i].p
+                         IN ns[o].f \in {"Type", "ResultType"} /\ ns[o].n = e[1]}
+ExtendStep(ns, S) == S \cup {e[2] : e \in {x \in ExtendEdges(ns) : x[1] \in S}}
+ExtendReach(ns, t) == LET S1 == {e[2] : e \in {x \in ExtendEdges(ns) : x[1] = t}}
+                      IN ExtendStep(ns, ExtendStep(ns, ExtendStep(ns, S1)))       \* four user type tokens: three more steps close it
 CrashPats ==
   \* dsl.Server reports the misuse and then dereferences the nil API
   ("crash.server_outside_api"  :> Pat({"Server"}, AnyTok, AnyTok, AnyTok, Ctxs \ {"API"})) @@
@@ -753,7 +799,10 @@ CrashPats ==
   \* Metadata / Trailers / (gRPC) Headers whose function defines no attribute: NewMappedAttributeExpr panics on the nil type
   ("crash.mapped_attribute_empty_dsl" :> Pat({"Metadata", "Trailers", "Headers"}, AnyTok, AnyTok, AnyTok, AnyTok)) @@
   \* Extend(CollectionOf(RT)): an object when Extend looks, an array when Finalize merges ("cannot merge non object attributes")
-  ("crash.extend_collection" :> Pat({"Extend"}, AnyTok, {"CollR1", "CollR2"}, AnyTok, AnyTok))
+  ("crash.extend_collection" :> Pat({"Extend"}, AnyTok, {"CollR1", "CollR2"}, AnyTok, AnyTok)) @@
+  \* Meta("struct:pkg:path") / Meta("struct:type:name") without a value: the key exists with no values, validation and
+  \* UserTypeExpr.Name index the first one
+  ("crash.meta_without_value" :> Pat({"Meta"}, {"struct:pkg:path", "struct:type:name"}, {"-"}, AnyTok, AnyTok))
 PatDevs == DOMAIN CrashPats
 Triggered(d, ns) ==
   CASE d \in PatDevs -> \E i \in Idx(ns) : Match(ns, i, CrashPats[d])
@@ -786,12 +835,37 @@ Triggered(d, ns) ==
          \E i \in Idx(ns) : ns[i].f = "Body" /\ ns[i].v \in OpenVars \cup {"nilfn"} /\ DeclNames(ns, i) = {}
     [] d = "crash.base_cycle" ->
          \E i \in Idx(ns) : ns[i].f \in {"Extend", "Reference"} /\ ns[i].t \in UserToks /\ Defined(ns, ns[i].t)
+    \* user types that Extend each other in a cycle, and a method: MethodExpr.Validate looks for the security attributes
+    \* of the payload through the bases (hasTag, hasTagPrefix, TaggedAttribute, RemovePkgPath) without a guard
+    [] d = "crash.base_cycle_tag_lookup" ->
+         /\ \E t \in UserToks : t \in ExtendReach(ns, t)
+         /\ \E i \in Idx(ns) : ns[i].f = "Method"
+    \* API(func() { GRPC(func() { Response("e", code) }) }): the API-level gRPC error responses are never prepared
+    \* (copying one to an endpoint dereferences its nil message) nor validated (the missing error is dereferenced in Finalize)
+    [] d = "crash.api_grpc_error_response" ->
+         \E i \in Idx(ns) : /\ ns[i].f = "Response" /\ ns[i].n # "-" /\ ns[i].p # 0 /\ ns[ns[i].p].f = "GRPC"
+                             /\ ns[ns[i].p].p # 0 /\ ns[ns[ns[i].p].p].f = "API"
+    \* Response(code, func() { Message(func() {}) }) (no attribute) in a gRPC block: the response message has no type
+    [] d = "crash.grpc_response_message_empty_dsl" ->
+         \E i \in Idx(ns) : ns[i].f = "Message" /\ DeclNames(ns, i) = {} /\ ns[i].p # 0 /\ ns[ns[i].p].f = "Response"
+    \* Enum(v) and Default(v) on one attribute with values Go cannot compare (slices, maps): validateEnumDefault uses ==
+    [] d = "crash.enum_default_uncomparable" ->
+         \E i, j \in Idx(ns) : /\ ns[i].f = "Enum" /\ ns[j].f = "Default" /\ ns[i].p = ns[j].p
+                                /\ ns[i].t \in UncomparableVals /\ ns[j].t \in UncomparableVals
+    \* Extend(T) inside an attribute that a user type defines inline, where T is or extends that user type: Finalize
+    \* merges the attribute into itself, copying the (now cyclic) object never ends
+    [] d = "crash.extend_cycle_through_attribute" ->
+         \E i \in Idx(ns) : /\ ns[i].f = "Extend" /\ ns[i].t \in UserToks /\ ns[i].p # 0 /\ ns[ns[i].p].f \in AttrDecl
     [] OTHER -> FALSE
 CrashDevs == PatDevs \cup {"crash.extend_reference_nil", "crash.service_redefined_nil_dsl", "crash.response_attr_not_in_view", "crash.base_cycle",
                          "crash.unknown_view_on_result_type", "crash.error_response_headers_undeclared_error", "crash.grpc_message_empty_dsl",
-                         "crash.grpc_message_attr_not_in_payload", "crash.body_empty_dsl"}
-AcceptDevs == {"accept.body_attribute", "accept.response_tag", "accept.request_mapping", "accept.response_mapping", "accept.grpc_mapping", "accept.scheme", "accept.view", "accept.error_response"}
+                         "crash.grpc_message_attr_not_in_payload", "crash.body_empty_dsl", "crash.base_cycle_tag_lookup",
+                         "crash.api_grpc_error_response", "crash.grpc_response_message_empty_dsl", "crash.enum_default_uncomparable",
+                         "crash.extend_cycle_through_attribute"}
+AcceptDevs == {"accept.body_attribute", "accept.response_tag", "accept.request_mapping", "accept.response_mapping", "accept.grpc_mapping", "accept.scheme", "accept.view", "accept.error_response",
+               "accept.scope"}
 KindOfAccept(d) == CASE d = "accept.body_attribute" -> "body_attribute" [] d = "accept.response_tag" -> "response_tag"
+                     [] d = "accept.scope" -> "scope"
                      [] d = "accept.request_mapping" -> "request_mapping" [] d = "accept.response_mapping" -> "response_mapping"
                      [] d = "accept.grpc_mapping" -> "grpc_mapping" [] d = "accept.scheme" -> "scheme"
                      [] d = "accept.view" -> "view" [] d = "accept.error_response" -> "error_response" [] OTHER -> "-"
@@ -825,7 +899,10 @@ CurCtx == IF stack = <<>> THEN "Top" ELSE stack[Len(stack)].ctx
 CurNode == IF stack = <<>> THEN 0 ELSE stack[Len(stack)].node
 Usable == {f \in Fns : f \in Once => \A i \in Idx(nodes) : nodes[i].f # f}
 \* the spine first: while a once-only function documented for this context is still unused, it is what gets called next
-SpineHere(ctx) == {f \in Usable \cap Once : ctx \in FT[f].doc}
+SpineContainer(f, ctx) == FT[f].opens # "" /\ \E g \in (Usable \cap Once) \ {f} : OpenCtx(f, "-", ctx) \in FT[g].doc
+SpineHere(ctx) == LET S == {f \in Usable \cap Once : ctx \in FT[f].doc}
+                      C == {f \in S : SpineContainer(f, ctx)}
+                  IN IF SpineDeep /\ C # {} THEN C ELSE S
 WellFns(ctx) == IF SpineHere(ctx) # {} THEN SpineHere(ctx) ELSE {f \in Usable : ctx \in FT[f].doc}
 MisFns(ctx) == {f \in Usable : ctx \notin FT[f].doc}
 
@@ -842,12 +919,18 @@ Begin(m) == /\ pc = "mode" /\ Len(nodes) < MaxCalls /\ (stack = <<>> => TopCalls
 ChooseF == /\ pc = "f"
            /\ \E f \in (IF mode = "well" THEN WellFns(CurCtx) ELSE MisFns(CurCtx)) : cur' = [NoCall EXCEPT !.f = f]
            /\ pc' = "n" /\ UNCHANGED <<nodes, stack, mode, nmis, outcome, later>>
-ChooseN == /\ pc = "n" /\ \E n \in Pool(FT[cur.f].ns) : cur' = [cur EXCEPT !.n = n]
+\* (steering of the security walk: requirements name the scheme of the walk; the tokens it shares with Scope are left to Scope)
+\* (steering of the recursion walk: the user types of a program have different names)
+NamePool(f) == IF Pools = "sec" /\ f = "Security" THEN {"sc1", "vsc1"}
+               ELSE IF Pools = "rec" /\ f = "Type" /\ Pool(FT[f].ns) \ {nodes[i].n : i \in {j \in Idx(nodes) : nodes[j].f = "Type"}} # {}
+                    THEN Pool(FT[f].ns) \ {nodes[i].n : i \in {j \in Idx(nodes) : nodes[j].f = "Type"}}
+               ELSE Pool(FT[f].ns)
+ChooseN == /\ pc = "n" /\ \E n \in NamePool(cur.f) : cur' = [cur EXCEPT !.n = n]
            /\ pc' = "t" /\ UNCHANGED <<nodes, stack, mode, nmis, outcome, later>>
 \* Declare / Refer: the user types a type token refers to, and the ones declared so far.  With the "doc" and "refs" pools
 \* a call only refers to types that an earlier top-level call declared (steering only: goa resolves names late).
-TokNeeds(t) == CASE t \in {"T1", "nT1", "ArrT1", "ArrnT1", "MapST1", "MapT1S", "CollT1"} -> {"T1"}
-                 [] t \in {"T2", "nT2"} -> {"T2"}
+TokNeeds(t) == CASE t \in {"T1", "nT1", "ArrT1", "ArrnT1", "MapST1", "MapSnT1", "MapT1S", "CollT1"} -> {"T1"}
+                 [] t \in {"T2", "nT2", "ArrT2", "ArrnT2", "MapSnT2"} -> {"T2"}
                  [] t \in {"R1", "nR1", "CollR1", "CollnR1", "CollCollR1", "CollFn"} -> {"R1"}
                  [] t \in {"R2", "CollR2"} -> {"R2"}
                  [] OTHER -> {}
@@ -856,14 +939,23 @@ Referable(f) == LET P == Pool(FT[f].ts) IN
                 IF Pools \in {"doc", "refs", "min", "tiny"} /\ f \notin {"Extend", "Reference"}
                 THEN (LET Q == {t \in P : TokNeeds(t) \subseteq DeclaredTypes} IN IF Q = {} THEN P ELSE Q)
                 ELSE P
-ChooseT == /\ pc = "t" /\ \E t \in Referable(cur.f) : cur' = [cur EXCEPT !.t = t]
+\* (steering of the recursion walk: user types are declared with a function, the type tokens are for what refers to them)
+TypePool(f) == IF Pools = "rec" /\ f = "Type" THEN {"-"}
+               ELSE IF Pools = "rec" /\ f \in {"Payload", "StreamingPayload", "Result", "StreamingResult"} THEN Referable(f) \ {"nT1", "nT2"}     \* (Payload("T1") is a description)
+               ELSE Referable(f)
+ChooseT == /\ pc = "t" /\ \E t \in TypePool(cur.f) : cur' = [cur EXCEPT !.t = t]
            /\ pc' = "c" /\ UNCHANGED <<nodes, stack, mode, nmis, outcome, later>>
 \* does the call pass a func() that runs children ("open") or not: chosen first, so that half of the calls nest
 ClosedTop == Cardinality({i \in Idx(nodes) : nodes[i].p = 0 /\ nodes[i].v \notin OpenVars})
 VarClasses(f) == LET canOpen == Pool(FT[f].vs) \cap OpenVars # {} /\ Len(stack) < MaxDepth IN
                  (IF canOpen THEN {"open"} ELSE {})
                  \cup (IF Pool(FT[f].vs) \ OpenVars # {} /\ (stack # <<>> \/ ClosedTop < 1 \/ ~canOpen) THEN {"closed"} ELSE {})
-ChooseC == /\ pc = "c" /\ \E c \in VarClasses(cur.f) : cur' = [cur EXCEPT !.c = c]
+\* (steering of the recursion walk: a type given by a token takes no function, a type / payload / result without a token takes one)
+VarClassesHere == LET V == VarClasses(cur.f) IN
+                  IF Pools = "rec" /\ cur.t # "-" /\ "closed" \in V THEN {"closed"}
+                  ELSE IF Pools = "rec" /\ cur.t = "-" /\ "open" \in V /\ cur.f \in {"Type", "Payload", "StreamingPayload", "Result", "StreamingResult"} THEN {"open"}
+                  ELSE V
+ChooseC == /\ pc = "c" /\ \E c \in VarClassesHere : cur' = [cur EXCEPT !.c = c]
            /\ pc' = "v" /\ UNCHANGED <<nodes, stack, mode, nmis, outcome, later>>
 \* the call happens: the expression it builds is pushed if it runs a func() with children
 Call == /\ pc = "v"
@@ -875,6 +967,7 @@ Call == /\ pc = "v"
 \* the func() of the innermost open call returns
 Return == /\ pc = "mode" /\ stack # <<>>
           /\ (Cardinality(KidsOf(nodes, CurNode)) >= MinKids \/ ~CanBegin)
+          /\ (SpineDeep => SpineHere(CurCtx) = {} \/ ~CanBegin)
           /\ stack' = SubSeq(stack, 1, Len(stack) - 1)
           /\ UNCHANGED <<nodes, pc, mode, cur, nmis, outcome, later>>
 Finish == /\ pc = "mode" /\ stack = <<>> /\ (Len(nodes) >= MinCalls \/ ~CanBegin) /\ Len(nodes) >= 1 /\ pc' = "ready"
